@@ -1695,7 +1695,7 @@ def trusted_scan(text):
                 prev = [x for x in re.finditer(r'\bfn\s+(\w+)', text[:m.start()]) if kind[x.start()] == 'c']
                 what = ('in fn ' + prev[-1].group(1)) if prev else what
             if name == 'assume_specification':
-                mm = re.search(r'assume_specification\s*(<[^>]*>)?\s*\[\s*([^\]]+?)\s*\]', tail, re.S)
+                mm = re.search(r'assume_specification\s*(<[^>]*>)?\s*\[\s*(.+?)\s*\]\s*\(', tail, re.S)
                 what = rs.norm_ws(mm.group(2)) if mm else what
             found.append({'kind': name, 'what': what, 'line': ln})
     found.sort(key=lambda d: d['line'])
